@@ -78,7 +78,7 @@ CHECKS = {
          "6/C17"),
  "C19": ("fault_enumeration",
          "directed magnitude families run through the real binary in its own process under CPU / address-space / stack limits, with an outcome oracle (exit 0, or exit 1 with an error diagnostic; any signal, panic exit, CPU-limit or allocation abort is a violation)",
-         "Complete enumeration of 70 directed families (30 nesting/length/recursion-cycle, 40 numeric) x their magnitude lists (nesting 1..10^5, numeric 2^k-1/2^k/2^k+1 for k up to 65, plus 8*10^8, 6.4*10^9, -1, 0, 4*10^8, 8*10^8-1) against the real binary built with overflow checks (thorough: also the stock release build). Decides crash / hang / abort versus diagnosis for every listed (family, magnitude); nothing is claimed beyond the listed families.",
+         "Complete enumeration of 72 directed families (32 nesting/length/recursion-cycle, 40 numeric) x their magnitude lists (nesting 1..10^5, numeric 2^k-1/2^k/2^k+1 for k up to 65, plus 8*10^8, 6.4*10^9, -1, 0, 4*10^8, 8*10^8-1) against the real binary built with overflow checks (thorough: also the stock release build). Decides crash / hang / abort versus diagnosis for every listed (family, magnitude); nothing is claimed beyond the listed families.",
          "RLIMIT_CPU 10 s (30 s thorough), RLIMIT_AS 4 GiB, default 8 MiB stack; for the two listed magnitudes inside the supported range (4*10^8, 8*10^8-1) only the time budget is waived (proportional work is not a hang); stack overflows of very long operator chains, #if nesting, #elif chains and chains of distinct sub-rules are listed known findings.",
          "6/C19"),
  "C18": ("exploration",
